@@ -10,7 +10,7 @@ import os
 from .. import common as C
 from . import c17m
 
-PROPS = ["theories/Props/C17.v", "theories/Inst/C17i.v"]
+PROPS = ["theories/Misc/MigrateProofs.v", "theories/Props/C17.v", "theories/Inst/C17i.v"]
 
 
 def unhex(h):
